@@ -337,6 +337,37 @@ pub fn run_book_case(case: &BookCase, orc: Oracles) -> (Features, Result<(), Fai
     (run.feat, r)
 }
 
+/// Execute a history without oracles and hand back the resulting real book.
+pub fn build_book(case: &BookCase) -> Box<dyn DynBook> {
+    let real = new_book(case.levels, case.t0, case.tick, case.trading);
+    let mut run = Run {
+        case,
+        orc: Oracles::default(),
+        real,
+        twin: None,
+        model: None,
+        now: case.t0,
+        trading: case.trading,
+        ever_off: !case.trading,
+        is_market: vec![],
+        base: vec![],
+        since: vec![],
+        fills: vec![],
+        reset_at: 0,
+        last_queue: BTreeMap::new(),
+        qtime: vec![],
+        tied: vec![],
+        budget: [BUDGET, BUDGET],
+        off_since: None,
+        reenabled_after_cross: false,
+        snapshot_levels: vec![],
+        partially_filled: vec![],
+        feat: Features::default(),
+    };
+    let _ = run.go();
+    run.real
+}
+
 impl<'a> Run<'a> {
     fn go(&mut self) -> Result<(), Failure> {
         let mut pre = capture(self.real.as_ref());
